@@ -159,15 +159,25 @@ func c13Gen(tier string, rng *rand.Rand, emit func(interface{})) {
 		xs := c13Values(rng, total)
 		var ops []c13Op
 		pc := 0.02 + rng.Float64()*0.3
+		// repeated combination multiplies counts; keep them far below 2^53 (exact in float64)
+		cnt := make([]uint64, k)
+		combine := func(i, j int) {
+			if cnt[i]+cnt[j] < 1<<40 {
+				cnt[i] += cnt[j]
+				ops = append(ops, c13Op{T: 1, I: i, J: j})
+			}
+		}
 		for _, x := range xs {
-			ops = append(ops, c13Op{T: 0, I: rng.Intn(k), X: F64(x)})
+			a := rng.Intn(k)
+			cnt[a]++
+			ops = append(ops, c13Op{T: 0, I: a, X: F64(x)})
 			for k > 1 && rng.Float64() < pc {
 				i := rng.Intn(k)
 				j := rng.Intn(k - 1)
 				if j >= i {
 					j++
 				}
-				ops = append(ops, c13Op{T: 1, I: i, J: j})
+				combine(i, j)
 			}
 		}
 		for i := 0; i < k; i++ {
@@ -176,7 +186,7 @@ func c13Gen(tier string, rng *rand.Rand, emit func(interface{})) {
 				if j >= i {
 					j++
 				}
-				ops = append(ops, c13Op{T: 1, I: i, J: j})
+				combine(i, j)
 			}
 			ops = append(ops, c13Op{T: 2, I: i})
 		}
